@@ -859,6 +859,51 @@ def classify(line, exp, out):
     return "wrong-answer"
 
 
+def alloc_failure_probe(chk):
+    """The copy-on-write duplication is an allocation: when the device cannot supply the block, the in-place operation on a
+    SHARED tensor raises and nothing changes — it must not fall back to writing into the shared block.  Implementation
+    alone (harness h_cow, op `failnext k`): share a tensor (copy / flatten / reshape view / parameter read), let the next
+    allocation fail, operate in place on one side, read both sides."""
+    exe = build.build_harness(HARNESS)
+    rng = chk.rng
+    for it in range(12 if chk.tier == "quick" else 150):
+        dev = "naive" if it % 2 == 0 else "eigen"
+        n = rng.choice([1, 2, 3, 4])
+        vals = [rng.randint(1, 9) for _ in range(n)]
+        share = rng.choice(["copy 0 1", "copyctor 0 1", "flatten 0 1"])
+        side = rng.choice([0, 1])
+        op, f = rng.choice([("imul %d 2", lambda v: [2 * x for x in v]), ("reset %d 7", lambda v: [7] * len(v)),
+                            ("iadd %d 2", None), ("isub %d 2", None)])
+        lines = ["dev " + dev, "new 0 S:%d/1 V:%s" % (n, ",".join(map(str, vals))), "new 2 S:%d/1 V:%s" % (n, ",".join(["1"] * n)),
+                 share, "failnext 1", op % side, "failnext 0", "read 0", "read 1"]
+        outs, reports = vrun.run_impl(exe, lines, stateful=True, timeout=60)
+        chk.traces += 1
+        for l, o in zip(lines, outs):
+            chk.count(dev + " " + l, o, o.startswith("ok"))
+        res, r0, r1 = outs[5], outs[7], outs[8]
+        base = None
+        def vs(o):
+            try:
+                return [int(float(x)) for x in o.split(":")[-1].split(",")]
+            except Exception:
+                return None
+        v0, v1 = vs(r0), vs(r1)
+        bad = None
+        if any(o.startswith("crash") for o in outs):
+            bad = "a line crashes: %s" % [o for o in outs if o.startswith("crash")][:1]
+        elif res.startswith("err"):
+            if v0 != vals or v1 != vals:
+                bad = "the in-place operation raised, yet the values are t0=%s t1=%s (both were %s)" % (v0, v1, vals)
+        elif res.startswith("ok"):
+            other = v1 if side == 0 else v0
+            if other != vals:
+                bad = "the in-place operation on t%d succeeded while the allocation of its private copy failed, and the tensor it shared memory with changed to %s (was %s)" % (side, other, vals)
+        if bad:
+            chk.report("cow:allocation-failure-during-duplication", "device %s, `%s`: %s" % (dev, "; ".join(lines[1:7]), bad),
+                       {"family": FAMILY, "harness": HARNESS, "stateful": True, "lines": lines, "model_family": None, "observed": outs[5:]})
+            break
+
+
 def run(chk):
     quick = chk.tier == "quick"
     chk.rule = ("histories of the cow protocol over <= 6 Tensor objects and <= 2 Parameters, <= 60 operations each, generated from one PRNG "
@@ -978,6 +1023,9 @@ def run(chk):
         for name, why in broken.items():
             chk.report("obligation:" + name, "theorem %s no longer checks: %s" % (name, why),
                        {"theorem": name, "reason": why, "log": (chk.oblig or {}).get("log_tail", "")[-1500:]}, found_input=False)
+    alloc_failure_probe(chk)
+    from props import C20 as _c20
+    _c20.run_eq_leg(chk, lambda name: "Tensor" in name and "Apply" not in name)    # the C wrappers of the Tensor accessors and in-place operations (valid and invalid tensors)
     chk.trusted += [
         "modelled, not verified: Tensor / Device front / Naive in-place kernels / Parameter tensors are hand-modelled in Lean (Model/Cow.lean) and tied to the code by the correspondence run of this check on devices::Naive and devices::Eigen",
         "the harness devices override the private virtual new_handle (same malloc/free body plus a live-buffer counter)",
